@@ -26,14 +26,14 @@ type Case struct {
 
 // Op is one step of a program (fully explicit, so programs can be mutated and replayed).
 type Op struct {
-	Kind    string `json:"op"` // append | extract | clone | rng
-	Target  int    `json:"on"` // index of the live transcript it acts on
-	Label   []byte `json:"label,omitempty"`
-	Msg     []byte `json:"msg,omitempty"`
-	Size    int    `json:"size,omitempty"`
+	Kind    string      `json:"op"` // append | extract | clone | rng
+	Target  int         `json:"on"` // index of the live transcript it acts on
+	Label   []byte      `json:"label,omitempty"`
+	Msg     []byte      `json:"msg,omitempty"`
+	Size    int         `json:"size,omitempty"`
 	Rekeys  [][2][]byte `json:"rekeys,omitempty"`
-	Entropy []byte `json:"entropy,omitempty"`
-	Reads   []int  `json:"reads,omitempty"`
+	Entropy []byte      `json:"entropy,omitempty"`
+	Reads   []int       `json:"reads,omitempty"`
 }
 
 type Program struct {
